@@ -7,6 +7,8 @@ def spec(tier):
     q = tier == "quick"
     obs = parts("P3.sweep", F, "sweep", 16, 280 if q else 3000, path_timeout=120,
                 what="(document,line) symbolic index; every column 0..len+1 x 9 positional methods on the real server over an in-memory workspace: construct-rich module/submodule/program, broken text, preprocessed file, top-level statements, fixed form, tiny/empty documents, one line per bundled intrinsic/keyword/statement (quick) + every file of test/test_source (thorough); result shape + every location inside its target document")
+    obs += parts("P3.opt_sweep", F, "opt_sweep", 16, 280 if q else 3000, path_timeout=120,
+                 what="the same sweep on four documents under 6 option sets (diagnostics disabled + code actions, name-only/no-prefix completion, hover signature + lowercase intrinsics + sorted keywords, skip members + no snippets, line-length limits): results JSON-serialisable, protocol-shaped, ranges inside the document")
     obs += [XH("P3.diags", F, "diags", 120 if q else 900, what="published diagnostics (incl. relatedInformation) and documentSymbol ranges inside the document, per document"),
             XH("P2.prefix_free", F, "prefix_free", 150 if q else 900, what="get_line_prefix on FREE symbolic strings (len<=3 quick / <=4 thorough, prefix line len<=1) and a free column"),
             XH("P2.paren_free", F, "paren_free", 150 if q else 900, what="get_paren_level/find_paren_match on a FREE symbolic string len<=3 quick / <=4 thorough: sections inside the line"),
